@@ -625,8 +625,10 @@ def stub():
 def write_if_changed(path, text):
     old = open(path).read() if os.path.exists(path) else None
     if old != text:
-        with open(path, "w") as f:
+        tmp = "%s.%d.tmp" % (path, os.getpid())   # atomic: another check may be compiling the file right now
+        with open(tmp, "w") as f:
             f.write(text)
+        os.replace(tmp, path)
         return True
     return False
 
